@@ -85,7 +85,7 @@ func chanOf(v ssa.Value) ssa.Value {
 }
 
 func propC18(w *World, r *Report) {
-	r.Explanation = "Decided clause: (W1) linearity of frame buffers: in the reader (handleConn) and the writer goroutine a buffer received from a channel is never used after it has been sent on; buffers enter circulation only through the initial fill of the 'spent' channel and travel reader -> write channel -> writer -> spent channel; (W2) between receiving a frame and handing it back the writer calls the frame-section writer exactly once with that buffer, and no repo function on that call chain retains the slice; (W3) topology: one writer goroutine started once per connection (not in a loop), two channels of equal constant capacity, and exactly capacity-many distinct allocations are injected, so the hand-back never blocks and no two in-flight buffers alias; (W4) every return of handleConn after the goroutine started closes the write channel; on the closed edge the writer closes the builder before returning; Close flushes before closing the file and returns the flush error; (W5) framing: header = magic ‖ version ‖ 'H' ‖ field count ‖ fields, frame = 'F' ‖ field count ‖ fields ‖ data, with the FrameSize field = len of the very slice written. Rule: SSA value linearity via CFG reachability, must-pass dataflow, escape scan, constant/normal-form comparison."
+	r.Explanation = "Decided clause: (W1) linearity of frame buffers: in the reader (handleConn) and the writer goroutine a buffer received from a channel is never used after it has been sent on; buffers enter circulation only through the initial fill of the 'spent' channel and travel reader -> write channel -> writer -> spent channel; (W2) between receiving a frame and handing it back the writer calls the frame-section writer exactly once with that buffer, and no repo function on that call chain retains the slice; (W3) topology: one writer goroutine started once per connection (not in a loop), two channels of equal constant capacity, and exactly capacity-many distinct allocations are injected, so the hand-back never blocks and no two in-flight buffers alias; (W4) every return of handleConn after the goroutine started closes the write channel and never the buffer-pool channel; on the closed edge the writer closes the builder before returning; Close flushes before closing the file and returns the flush error on its non-nil edge; (W5) framing: header = magic ‖ version ‖ 'H' ‖ field count ‖ fields, frame = 'F' ‖ field count ‖ fields ‖ data, with the FrameSize field = len of the very slice written, each section write followed by the next on its nil-error edge. Rule: SSA value linearity via CFG reachability, must-pass dataflow, escape scan, constant/normal-form comparison."
 	r.RuleText = "obligation per (rule, channel operation / call site)"
 	r.Assumptions = []string{"bufio.Writer.Write copies its argument (standard library contract)", "Go channel semantics: FIFO, a buffered send of capacity-many items never blocks",
 		"file name collisions within one second across reconnects and disk errors (panic by design) are not decided"}
